@@ -26,6 +26,11 @@ CONSTANT Threads      \* recording threads, 1..T
 
 Kinds == {"B", "E", "i", "C"}
 
+\* A counter value is a uint64_t; TLC's integers are 32 bit.  The contract only ever compares values for equality, so a value is
+\* carried as its decimal numeral (a string of digits without leading zeros, "0" for zero), exactly, up to 2^64 - 1; events
+\* without a value carry NoVal.  The drivers report the value in a log entry as the numeral of the NUMBER the JSON token denotes
+\* (1e3 and 1000.0 are "1000"; a token that is not an integer is reported as such and equals no recorded value).
+NoVal == ""
 Ev(k, name, cat, val) == [k |-> k, name |-> name, cat |-> cat, val |-> val]
 
 \* nesting depth of a sequence of events (recorded events use field k, log entries ph: pass the kinds)
@@ -40,9 +45,9 @@ Nested(ks) == \A n \in 0..Len(ks) : DepthOf(SubSeq(ks, 1, n)) >= 0
 -------------------------------------------------------------------------------
 \* what an event looks like in the log (fields the contract does not constrain are normalised away)
 Norm(ph, name, cat, val) ==
-  CASE ph = "E" -> [ph |-> "E", name |-> "", cat |-> "", val |-> 0]            \* an end event carries no data of the caller
+  CASE ph = "E" -> [ph |-> "E", name |-> "", cat |-> "", val |-> NoVal]            \* an end event carries no data of the caller
     [] ph = "C" -> [ph |-> "C", name |-> name, cat |-> "", val |-> val]
-    [] OTHER    -> [ph |-> ph, name |-> name, cat |-> cat, val |-> 0]           \* B, i
+    [] OTHER    -> [ph |-> ph, name |-> name, cat |-> cat, val |-> NoVal]           \* B, i
 Render(ev)    == Norm(ev.k, ev.name, ev.cat, ev.val)
 RenderSeq(s)  == [i \in DOMAIN s |-> Render(s[i])]
 Proj(e)       == Norm(e.ph, e.name, e.cat, e.val)
